@@ -11,24 +11,18 @@ Import ListNotations.
 Local Open Scope R_scope.
 
 (* ---------------- tanh change of variables ---------------- *)
-Theorem C14_tanh_derive : forall u, is_derive tanh u (1 - (tanh u) ^ 2).
-Proof. exact tanh_derive. Qed.
-Print Assumptions C14_tanh_derive.
+(* tanh is differentiable with derivative 1 - tanh^2, artanh is its inverse on (-1,1), and tanh is an
+   increasing bijection: P(tanh U <= a) = P(U <= artanh a) *)
+Theorem C14_tanh_bijection :
+  (forall u, is_derive tanh u (1 - (tanh u) ^ 2)) /\
+  (forall u, artanh (tanh u) = u) /\
+  (forall a, -1 < a < 1 -> tanh (artanh a) = a) /\
+  (forall u a, -1 < a < 1 -> (tanh u <= a <-> u <= artanh a)).
+Proof. exact (conj tanh_derive (conj artanh_tanh (conj tanh_artanh tanh_le_iff))). Qed.
+Print Assumptions C14_tanh_bijection.
 
-Theorem C14_artanh_tanh : forall u, artanh (tanh u) = u.
-Proof. exact artanh_tanh. Qed.
-Print Assumptions C14_artanh_tanh.
-
-Theorem C14_tanh_artanh : forall a, -1 < a < 1 -> tanh (artanh a) = a.
-Proof. exact tanh_artanh. Qed.
-Print Assumptions C14_tanh_artanh.
-
-(* tanh is an increasing bijection onto (-1,1): P(tanh U <= a) = P(U <= artanh a), so the CDF of the
-   action is F_U o artanh; its derivative (the density in action space) is f_U(artanh a) / (1 - a^2) *)
-Theorem C14_tanh_cdf_event : forall u a, -1 < a < 1 -> (tanh u <= a <-> u <= artanh a).
-Proof. exact tanh_le_iff. Qed.
-Print Assumptions C14_tanh_cdf_event.
-
+(* so the CDF of the action is F_U o artanh; its derivative (the density in action space) is
+   f_U(artanh a) / (1 - a^2) *)
 Theorem C14_squash_change_of_variables : forall (F f : R -> R) a,
   (forall u, is_derive F u (f u)) -> -1 < a < 1 ->
   is_derive (fun y => F (artanh y)) a (f (artanh a) / (1 - a ^ 2)).
@@ -64,71 +58,46 @@ Theorem C14_squashed_cached_agrees : forall feps eps p us,
 Proof. exact squashed_cached_agrees. Qed.
 Print Assumptions C14_squashed_cached_agrees.
 
-(* ---------------- mass one on product spaces ---------------- *)
-Theorem C14_softmax_sums_to_one : forall l, l <> [] -> sumR (softmax l) = 1.
-Proof. exact softmax_sums_to_one. Qed.
-Print Assumptions C14_softmax_sums_to_one.
+Example C14_cached_hyp_ok : List.Forall (fun u => -1 + 0 <= tanh u <= 1 - 0) [0; 3; -20].
+Proof. repeat constructor; pose proof (tanh_range 0); pose proof (tanh_range 3); pose proof (tanh_range (-20)); Lra.lra. Qed.
 
-Theorem C14_multicat_mass_one : forall dims, List.Forall (fun d => d <> []) dims ->
-  sumR (map (fun a => exp (multicat_logprob dims a)) (all_actions dims)) = 1.
-Proof. exact multicat_mass_one. Qed.
-Print Assumptions C14_multicat_mass_one.
+(* ---------------- mass one on product spaces ---------------- *)
+Theorem C14_mass_one :
+  (forall l, l <> [] -> sumR (softmax l) = 1) /\
+  (forall dims, List.Forall (fun d => d <> []) dims ->
+     sumR (map (fun a => exp (multicat_logprob dims a)) (all_actions dims)) = 1) /\
+  (forall ls, sumR (map (fun bs => exp (bernoulli_logprob ls bs)) (all_bits (length ls))) = 1).
+Proof. exact (conj softmax_sums_to_one (conj multicat_mass_one bernoulli_mass_one)). Qed.
+Print Assumptions C14_mass_one.
 
 Example C14_multicat_hyp_ok : List.Forall (fun d : list R => d <> []) [[0; 1; -2]; [30; -30]] /\
-  length (all_actions [[0; 1; -2]; [30; -30]]) = 6%nat.
-Proof. split; [repeat constructor; discriminate | reflexivity]. Qed.
+  length (all_actions [[0; 1; -2]; [30; -30]]) = 6%nat /\ length (all_bits 3) = 8%nat.
+Proof. split; [repeat constructor; discriminate | split; reflexivity]. Qed.
 
-Theorem C14_bernoulli_mass_one : forall ls,
-  sumR (map (fun bs => exp (bernoulli_logprob ls bs)) (all_bits (length ls))) = 1.
-Proof. exact bernoulli_mass_one. Qed.
-Print Assumptions C14_bernoulli_mass_one.
-
-(* ---------------- sum over dimensions ---------------- *)
-Theorem C14_logprob_is_sum_over_dims : forall m s p x xs,
-  gauss_logprob ((m, s) :: p) (x :: xs) = normal_logpdf m (exp s) x + gauss_logprob p xs.
-Proof. exact gauss_logprob_cons. Qed.
+(* ---------------- log-probability is the sum over dimensions, the joint density the product ---------------- *)
+Theorem C14_logprob_is_sum_over_dims :
+  (forall m s p x xs, gauss_logprob ((m, s) :: p) (x :: xs) = normal_logpdf m (exp s) x + gauss_logprob p xs) /\
+  (forall p xs, exp (gauss_logprob p xs) = prodR (map2 (fun ml x => normal_pdf (fst ml) (exp (snd ml)) x) p xs)) /\
+  (forall d t k a, multicat_logprob (d :: t) (k :: a) = cat_logprob d k + multicat_logprob t a) /\
+  (forall l ls b bs, bernoulli_logprob (l :: ls) (b :: bs) = bern_logprob l b + bernoulli_logprob ls bs).
+Proof. exact (conj gauss_logprob_cons (conj gauss_joint_density_is_product (conj multicat_logprob_cons bernoulli_logprob_cons))). Qed.
 Print Assumptions C14_logprob_is_sum_over_dims.
 
-Theorem C14_joint_density_is_product : forall p xs,
-  exp (gauss_logprob p xs) = prodR (map2 (fun ml x => normal_pdf (fst ml) (exp (snd ml)) x) p xs).
-Proof. exact gauss_joint_density_is_product. Qed.
-Print Assumptions C14_joint_density_is_product.
-
-Theorem C14_multicat_logprob_is_sum : forall d t k a,
-  multicat_logprob (d :: t) (k :: a) = cat_logprob d k + multicat_logprob t a.
-Proof. exact multicat_logprob_cons. Qed.
-Print Assumptions C14_multicat_logprob_is_sum.
-
-Theorem C14_bernoulli_logprob_is_sum : forall l ls b bs,
-  bernoulli_logprob (l :: ls) (b :: bs) = bern_logprob l b + bernoulli_logprob ls bs.
-Proof. exact bernoulli_logprob_cons. Qed.
-Print Assumptions C14_bernoulli_logprob_is_sum.
-
 (* ---------------- mode maximises ---------------- *)
-Theorem C14_gauss_mode_maximises : forall p xs, length xs = length p ->
-  gauss_logprob p xs <= gauss_logprob p (gauss_mode p).
-Proof. exact gauss_mode_maximises. Qed.
-Print Assumptions C14_gauss_mode_maximises.
+Theorem C14_mode_maximises :
+  (forall p xs, length xs = length p -> gauss_logprob p xs <= gauss_logprob p (gauss_mode p)) /\
+  (forall l, l <> [] -> (argmax l < length l)%nat /\ max_at l (argmax l)) /\
+  (forall l m k, max_at l m -> (k < length l)%nat -> cat_logprob l k <= cat_logprob l m) /\
+  (forall dims a, List.Forall2 (fun d k => (k < length d)%nat) dims a ->
+     multicat_logprob dims a <= multicat_logprob dims (multicat_mode dims)) /\
+  (forall ls bs, length bs = length ls -> bernoulli_logprob ls bs <= bernoulli_logprob ls (bernoulli_mode ls)).
+Proof.
+  exact (conj gauss_mode_maximises (conj argmax_spec (conj cat_mode_maximises (conj multicat_mode_maximises bernoulli_mode_maximises)))).
+Qed.
+Print Assumptions C14_mode_maximises.
 
-Theorem C14_argmax_is_max : forall l, l <> [] -> (argmax l < length l)%nat /\ max_at l (argmax l).
-Proof. exact argmax_spec. Qed.
-Print Assumptions C14_argmax_is_max.
-
-Theorem C14_categorical_mode_maximises : forall l m k,
-  max_at l m -> (k < length l)%nat -> cat_logprob l k <= cat_logprob l m.
-Proof. exact cat_mode_maximises. Qed.
-Print Assumptions C14_categorical_mode_maximises.
-
-Theorem C14_multicat_mode_maximises : forall dims a,
-  List.Forall2 (fun d k => (k < length d)%nat) dims a ->
-  multicat_logprob dims a <= multicat_logprob dims (multicat_mode dims).
-Proof. exact multicat_mode_maximises. Qed.
-Print Assumptions C14_multicat_mode_maximises.
-
-Theorem C14_bernoulli_mode_maximises : forall ls bs, length bs = length ls ->
-  bernoulli_logprob ls bs <= bernoulli_logprob ls (bernoulli_mode ls).
-Proof. exact bernoulli_mode_maximises. Qed.
-Print Assumptions C14_bernoulli_mode_maximises.
+Example C14_mode_hyp_ok : List.Forall2 (fun (d : list R) k => (k < length d)%nat) [[0; 1; -2]; [30; -30]] [2; 0]%nat.
+Proof. repeat constructor. Qed.
 
 (* squashed Gaussian: only this much holds - mode() is the image of the pre-squash maximiser, which
    is the median of the action; it is not the density maximiser (refuted below) *)
@@ -146,42 +115,28 @@ Proof. exact C14_squashed_mode_not_maximiser_refuted. Qed.
 Print Assumptions C14_squashed_mode_not_maximiser_refuted'.
 
 (* ---------------- entropy ---------------- *)
-Theorem C14_gaussian_entropy_sum : forall p,
-  gauss_entropy p = INR (length p) * (1 / 2 + 1 / 2 * ln (2 * PI)) + sumR (map snd p).
-Proof. exact gaussian_entropy_sum. Qed.
-Print Assumptions C14_gaussian_entropy_sum.
-
-(* entropy() of the discrete distributions is the expectation of -log_prob under the mass function
-   over the whole product space *)
-Theorem C14_multicat_entropy_is_expectation : forall dims, List.Forall (fun d => d <> []) dims ->
-  multicat_entropy dims
-  = - sumR (map (fun a => exp (multicat_logprob dims a) * multicat_logprob dims a) (all_actions dims)).
-Proof. exact multicat_entropy_is_expectation. Qed.
-Print Assumptions C14_multicat_entropy_is_expectation.
-
-Theorem C14_bernoulli_entropy_is_expectation : forall ls,
-  bernoulli_entropy ls
-  = - sumR (map (fun bs => exp (bernoulli_logprob ls bs) * bernoulli_logprob ls bs) (all_bits (length ls))).
-Proof. exact bernoulli_entropy_is_expectation. Qed.
-Print Assumptions C14_bernoulli_entropy_is_expectation.
-
-Theorem C14_bernoulli_entropy_textbook : forall l,
-  bern_entropy1 l = - (sigmoid l * ln (sigmoid l) + (1 - sigmoid l) * ln (1 - sigmoid l)).
-Proof. exact bern_entropy_textbook. Qed.
-Print Assumptions C14_bernoulli_entropy_textbook.
+(* Gaussian: sum over dimensions of the 1-D formula; discrete distributions: entropy() is the
+   expectation of -log_prob under the mass function over the whole product space *)
+Theorem C14_entropy :
+  (forall p, gauss_entropy p = INR (length p) * (1 / 2 + 1 / 2 * ln (2 * PI)) + sumR (map snd p)) /\
+  (forall dims, List.Forall (fun d => d <> []) dims ->
+     multicat_entropy dims
+     = - sumR (map (fun a => exp (multicat_logprob dims a) * multicat_logprob dims a) (all_actions dims))) /\
+  (forall ls, bernoulli_entropy ls
+     = - sumR (map (fun bs => exp (bernoulli_logprob ls bs) * bernoulli_logprob ls bs) (all_bits (length ls)))) /\
+  (forall l, bern_entropy1 l = - (sigmoid l * ln (sigmoid l) + (1 - sigmoid l) * ln (1 - sigmoid l))).
+Proof.
+  exact (conj gaussian_entropy_sum (conj multicat_entropy_is_expectation (conj bernoulli_entropy_is_expectation bern_entropy_textbook))).
+Qed.
+Print Assumptions C14_entropy.
 
 (* ---------------- gSDE ---------------- *)
-Theorem C14_expln_positive : forall eps ls, 0 <= eps -> 0 < expln eps ls.
-Proof. exact expln_positive. Qed.
-Print Assumptions C14_expln_positive.
-
-Theorem C14_gsde_variance_nonneg : forall x c, 0 <= gsde_variance x c.
-Proof. exact gsde_variance_nonneg. Qed.
-Print Assumptions C14_gsde_variance_nonneg.
-
-Theorem C14_gsde_std_positive : forall eps x c, 0 < eps -> 0 < gsde_std eps x c.
-Proof. exact gsde_std_positive. Qed.
-Print Assumptions C14_gsde_std_positive.
+Theorem C14_gsde_positive :
+  (forall eps ls, 0 <= eps -> 0 < expln eps ls) /\
+  (forall x c, 0 <= gsde_variance x c) /\
+  (forall eps x c, 0 < eps -> 0 < gsde_std eps x c).
+Proof. exact (conj expln_positive (conj gsde_variance_nonneg gsde_std_positive)). Qed.
+Print Assumptions C14_gsde_positive.
 
 (* reparametrisation: the log-density of loc + e * scale depends on the draw only through e^2 *)
 Theorem C14_rsample_logpdf : forall mu sigma e, sigma <> 0 ->
@@ -190,32 +145,20 @@ Proof. exact normal_logpdf_rsample. Qed.
 Print Assumptions C14_rsample_logpdf.
 
 (* ---------------- regenerated fragments of distributions.py ---------------- *)
-Theorem C14_fragment_sum_independent_dims : forall t,
-  sum_independent_dims t =
-  if dist_sum_per_row (tensor_rank t)
-  then match t with T2 rows => map sumR rows | T1 v => map (fun x => x) v end
-  else match t with T1 v => [sumR v] | T2 rows => [] end.
-Proof. exact frag_sum_per_row. Qed.
-Print Assumptions C14_fragment_sum_independent_dims.
-
-Theorem C14_fragment_atanh : forall y lp lm,
-  Q2R lp = ln (1 + y) -> Q2R lm = ln (1 + - y) -> Q2R (dist_atanh lp lm) = artanh y.
-Proof. exact frag_atanh_model. Qed.
-Print Assumptions C14_fragment_atanh.
-
-Theorem C14_fragment_expln : forall log_std e l1p eps,
-  Q2R (fst (dist_expln log_std e l1p eps)) = expln_safe (Q2R eps) (Q2R log_std) /\
-  Q2R (snd (dist_expln log_std e l1p eps)) = expln_gen (Q2R log_std) (Q2R e) (Q2R l1p).
-Proof. exact frag_expln. Qed.
-Print Assumptions C14_fragment_expln.
-
-Theorem C14_fragment_squash_update : forall eps p acts gacts lp corr,
-  Q2R lp = gauss_logprob p gacts -> Q2R corr = sumR (map (squash_correction eps) acts) ->
-  Q2R (dist_squash_update lp corr) = squashed_logprob_g eps p acts gacts.
-Proof. exact frag_squash_update_model. Qed.
-Print Assumptions C14_fragment_squash_update.
-
-Theorem C14_fragment_gsde_squash_update : forall lp corr,
-  Q2R (dist_gsde_squash_update lp corr) = Q2R lp - Q2R corr.
-Proof. exact frag_gsde_squash_update. Qed.
-Print Assumptions C14_fragment_gsde_squash_update.
+Theorem C14_fragments :
+  (forall t, sum_independent_dims t =
+     if dist_sum_per_row (tensor_rank t)
+     then match t with T2 rows => map sumR rows | T1 v => map (fun x => x) v end
+     else match t with T1 v => [sumR v] | T2 rows => [] end) /\
+  (forall y lp lm, Q2R lp = ln (1 + y) -> Q2R lm = ln (1 + - y) -> Q2R (dist_atanh lp lm) = artanh y) /\
+  (forall log_std e l1p eps,
+     Q2R (fst (dist_expln log_std e l1p eps)) = expln_safe (Q2R eps) (Q2R log_std) /\
+     Q2R (snd (dist_expln log_std e l1p eps)) = expln_gen (Q2R log_std) (Q2R e) (Q2R l1p)) /\
+  (forall eps p acts gacts lp corr,
+     Q2R lp = gauss_logprob p gacts -> Q2R corr = sumR (map (squash_correction eps) acts) ->
+     Q2R (dist_squash_update lp corr) = squashed_logprob_g eps p acts gacts) /\
+  (forall lp corr, Q2R (dist_gsde_squash_update lp corr) = Q2R lp - Q2R corr).
+Proof.
+  exact (conj frag_sum_per_row (conj frag_atanh_model (conj frag_expln (conj frag_squash_update_model frag_gsde_squash_update)))).
+Qed.
+Print Assumptions C14_fragments.
